@@ -736,12 +736,22 @@ func Gen(t *rapid.T, opt Options) *Program {
 		g.globals = append(g.globals, &Var{Name: name, T: st, Global: true})
 	}
 	if g.allow("struct") {
-		for i, n := 0, g.n(0, 2, "nstructs"); i < n; i++ {
+		maxS := 2
+		if opt.MaxStructs > 0 {
+			maxS = opt.MaxStructs
+		}
+		for i, n := 0, g.n(0, maxS, "nstructs"); i < n; i++ {
 			g.genStruct()
 		}
 	}
-	if g.allow("iface") && g.chance(1, 2, "ifaces") {
-		g.genIface()
+	if g.allow("iface") {
+		if opt.MaxIfaces > 1 {
+			for i, n := 0, g.n(1, opt.MaxIfaces, "nifaces"); i < n; i++ {
+				g.genIface()
+			}
+		} else if g.chance(1, 2, "ifaces") {
+			g.genIface()
+		}
 	}
 	// methods on plain structs
 	if g.allow("method") {
